@@ -31,4 +31,15 @@ PROPS = {
                       "ZeroMQ framing (two-part message) is not modelled"],
         assumptions=["records reach messageRecords/messageSummaries unchanged from the publisher (pipeline covered by C01)"],
     ),
+    "C18": dict(
+        rule="real RingBuffer on POSIX shared memory (writer handle + reader handle), buffer sizes {2,3,4,5,7,8,16,17,64,100,255,256} and "
+             "random 2..4096, histories of 1..40 ops Write/Read/ReadMultipleOf/ReadAll/DiscardStride with exact-fill, over-fill, exact-empty, "
+             "negative and over-capacity read sizes; 8% of histories may contain rewinding discards (the known finding). Chunk size / stride 0 "
+             "is excluded (the Go code divides by zero: outside the statement's domain). Non-trivial = the logical stream wrapped around the "
+             "end of the buffer at least once; distinct by input line.",
+        nontrivial=["wrap"],
+        jobs=seeds(1, 6),
+        trusted_base=["uint64 pointers modelled as Nat (guard < 2^64)", "mmap / POSIX shm; single-threaded use of the two handles"],
+        assumptions=["writer and reader are not concurrent in the correspondence run (the property is about op sequences)"],
+    ),
 }
